@@ -490,17 +490,17 @@ func c19ForgedTickets(run *evid.Run, d *rig.Daemon, label string) {
 	var first32 [32]byte
 	copy(first32[:], leaf)
 	keys := map[string][32]byte{
-		"all-zero key":                         {},
-		"first 32 bytes of the certificate":    first32,
-		"sha256(certificate DER)":              sum(leaf),
-		"sha256(certificate PEM)":              sum(pemLeaf),
-		"sha256(public key info)":              sum(cert.RawSubjectPublicKeyInfo),
-		"sha256(subject common name)":          sum([]byte(cert.Subject.CommonName)),
-		"sha256(serial number)":                sum(cert.SerialNumber.Bytes()),
-		"sha256(signature)":                    sum(cert.Signature),
-		"sha256(\"dirk\" + certificate DER)":     sum([]byte("dirk"), leaf),
-		"sha256(product label + certificate)":  sum([]byte("dirk session ticket key"), leaf),
-		"sha256(listen address)":               sum([]byte(d.Addr)),
+		"all-zero key":                        {},
+		"first 32 bytes of the certificate":   first32,
+		"sha256(certificate DER)":             sum(leaf),
+		"sha256(certificate PEM)":             sum(pemLeaf),
+		"sha256(public key info)":             sum(cert.RawSubjectPublicKeyInfo),
+		"sha256(subject common name)":         sum([]byte(cert.Subject.CommonName)),
+		"sha256(serial number)":               sum(cert.SerialNumber.Bytes()),
+		"sha256(signature)":                   sum(cert.Signature),
+		"sha256(\"dirk\" + certificate DER)":  sum([]byte("dirk"), leaf),
+		"sha256(product label + certificate)": sum([]byte("dirk session ticket key"), leaf),
+		"sha256(listen address)":              sum([]byte(d.Addr)),
 	}
 	// 2. A made-up authority and a made-up client1.
 	fakeCA, err := rig.NewCA("made-up-authority")
